@@ -279,3 +279,64 @@ def register(reg):
     for s_ in (StreamEventsEntry, WaitEvent, SignalWaitEventImpl):
         reg.specs.pop(s_.qual, None)
         reg.add(s_)
+
+
+class FilterEvents(FnSpec):
+    """C10: the filtering generator of stream_events: for every event received on this call's stream, in order, it yields that very event
+    iff no filter was given or the filter accepts it; it yields nothing else, and calls nothing but the filter (once per event)."""
+    qual = STREAM_EVENTS + ".filter_events"
+    properties = ("C10", "C06")
+    cell_types = {"receive": LIB(RS), "filter": ANY}
+    modifies = "rely"
+    suspends = True
+    may_raise = True
+    check_guarantee = False
+
+    def requires(self, F):
+        return []
+
+    def on_loop_body(self, eng, st, k, it):
+        st.ghost["event"] = it["item"].t
+        st.ghost["iter_trace_start"] = len(st.trace)
+
+    def at_yield(self, eng, st, val):
+        ev = st.ghost.get("event")
+        flt = st.fld("cell:filter", st.ghost["outer_env"])
+        tr = st.trace[st.ghost.get("iter_trace_start", 0):]
+        calls = [e for e in tr if e[0] == "opaque"]
+        eng.oblige(st, "post", "yields-exactly-the-event-just-received", val.t == ev if ev is not None else z3.BoolVal(False), "yield")
+        accepted = z3.BoolVal(False)
+        if len(calls) == 1:
+            accepted = z3.And(calls[0][1].t == flt, z3.BoolVal(len(calls[0][2]) == 1), calls[0][2][0].t == ev, eng.truth(st, calls[0][3]))
+        eng.oblige(st, "post", "yields-only-without-a-filter-or-when-the-filter-accepted-this-event",
+                   z3.Or(z3.And(flt == VNone, z3.BoolVal(not calls)), accepted), "yield")
+
+    def _loop0(self, L):
+        out = [("alloc-monotone", L.cur.alloc >= L.entry.alloc),
+               ("same-filter-and-stream", z3.And(L.cur.fld("cell:filter", L.cur_st.ghost["outer_env"]) == L.entry.fld("cell:filter", L.entry_st.ghost["outer_env"]),
+                                                 L.cur.fld("cell:receive", L.cur_st.ghost["outer_env"]) == L.entry.fld("cell:receive", L.entry_st.ghost["outer_env"])))]
+        # the iteration that just ended without yielding: the filter was given and rejected this event
+        st = L.cur_st
+        if "iter_trace_start" in st.ghost and len(st.trace) >= st.ghost["iter_trace_start"] and st is not L.entry_st:
+            tr = st.trace[st.ghost["iter_trace_start"]:]
+            yields = [e for e in tr if e[0] == "yield"]
+            calls = [e for e in tr if e[0] == "opaque"]
+            flt = L.cur.fld("cell:filter", st.ghost["outer_env"])
+            if "event" in st.ghost and st.ghost["event"] is not None:
+                if not yields:
+                    ok = z3.BoolVal(False)
+                    if len(calls) == 1:
+                        ok = z3.And(flt != VNone, calls[0][2][0].t == st.ghost["event"], z3.Not(L.eng.truth(st, calls[0][3])))
+                    out.append(("an-event-is-dropped-only-when-the-filter-rejected-it", ok))
+                out.append(("at-most-one-yield-and-one-filter-call-per-event", z3.BoolVal(len(yields) <= 1 and len(calls) <= 1)))
+        return out
+
+    def __init__(self):
+        self.loops = {0: self._loop0}
+
+
+def register2(reg):
+    def rs_anext(eng, st, recv, pos, kw, node, awaited):
+        return eng.suspend(st, recv, "receive-next")
+    reg.lib_methods[RS + ".__anext__"] = rs_anext
+    reg.add(FilterEvents)
